@@ -12,6 +12,14 @@ NOTE = ("Trusted: z3 answers; the proxies/shims reproduce CPython semantics (eve
         "oracle in the harness expresses the property. Nothing outside the stated bounds is claimed.")
 
 CHECKS = {
+    "C01": ("DESIGN.md C01",
+            "Source text as concrete prefix + up to 3 (thorough 4) unconstrained symbolic characters "
+            "through the real parse_script; token streams of length <= 2 (thorough 3) with every "
+            "token kind symbolic over the 137-kind alphabet; and at every position of 57 seed "
+            "programs every deletion / insertion / substitution / truncation with a window of "
+            "symbolic tokens, through the real parse(). Every feasible path must end in a node or "
+            "a CklSyntaxError with message and position; budget exhaustion confirmed by the "
+            "pristine run is reported as non-termination."),
     "C15": ("DESIGN.md C15",
             "All index arguments are symbolic integers (quick [-9,9], thorough [-40,40]) and the "
             "searched sequences are symbolic over a 3-symbol alphabet; sequence lengths 0..4 "
